@@ -329,3 +329,72 @@ def t_update_time():
     loops = {0: ForEachTrace(header="logs", name="write-buy-expirations"), 1: ForEachTrace(header="logs_", name="write-sell-expirations")}
     obl, info = UPDATE_TIME.verify(specs=specs, loops=loops, setup=ut_setup)
     return {"obligations": obl, "info": [info]}
+
+
+# ----------------------------------------------------------------------------- accessors: no access to the future (C06), VWAP (C08)
+def acc_spec(qual, ety, tag):
+    def raises(st, a):
+        m, t, p = a["self"], a["time"], a["parameters"]
+        tt = z3.If(t.none, st.read(m, "time").term, t.term)
+        s = st.peek(); v = s.list_get(p, V(("int",), tt))
+        isnone = v.none if ety[0] == "opt" else z3.BoolVal(False)
+        return z3.Or(z3.And(z3.Not(t.none), t.term > st.read(m, "time").term), z3.And(isnone, z3.Not(a["allow_none"].term)))
+
+    def pre(st, a):
+        m, t, p = a["self"], a["time"], a["parameters"]
+        tt = z3.If(t.none, st.read(m, "time").term, t.term)
+        return [("the series covers every time up to the clock; requested time >= 0", z3.And(st.length(p.term, ety) > st.read(m, "time").term, tt >= 0))]
+
+    def post(st0, st1, a, res):
+        m, t, p = a["self"], a["time"], a["parameters"]
+        tt = z3.If(t.none, st0.read(m, "time").term, t.term)
+        s = st0.peek(); v = s.list_get(p, V(("int",), tt))
+        eq = res.term == v.term
+        if ety[0] == "opt":
+            rn = res.none if res.ty[0] == "opt" else z3.BoolVal(False)
+            eq = z3.And(rn == v.none, z3.Implies(z3.Not(v.none), eq))
+        return [("returns the value recorded for the requested (default: current) time", eq)]
+    return FSpec(qual, pre=pre, post=post, raises={"AssertionError": raises}, props=("C06",), param_types={"parameters": ("list", ety), "time": ("opt", ("int",))},
+                 result=ety if ety[0] == "opt" else ("opt", ety))
+
+
+EXTRACT_OPT_REAL = acc_spec("Market._extract_data_by_time", ("opt", ("real",)), "price series")
+EXTRACT_INT = acc_spec("Market._extract_data_by_time", ("int",), "counter series")
+
+
+@task("Market._extract_data_by_time[prices]", props=["C06"], functions=["Market._extract_data_by_time"], replay="market_ops")
+def t_extract_prices():
+    obl, info = EXTRACT_OPT_REAL.verify()
+    return {"obligations": obl, "info": [info]}
+
+
+@task("Market._extract_data_by_time[counters]", props=["C06"], functions=["Market._extract_data_by_time"], replay="market_ops")
+def t_extract_counters():
+    obl, info = EXTRACT_INT.verify()
+    return {"obligations": obl, "info": [info]}
+
+
+def vwap_pre(st, a):
+    m = a["self"]
+    t = st.read(m, "time").term
+    return [("clock >= 0; volume and turnover series cover the clock; requested time >= 0",
+             z3.And(t >= 0, st.length(series_ref(st, m, "_executed_volumes"), ("int",)) > t, st.length(series_ref(st, m, "_executed_total_prices"), ("real",)) > t,
+                    z3.Or(a["time"].none, a["time"].term >= 0)))]
+
+
+def vwap_post(st0, st1, a, res):
+    m = a["self"]
+    tt = z3.If(a["time"].none, st0.read(m, "time").term, a["time"].term)
+    vol = st0.elems(series_ref(st0, m, "_executed_volumes"), ("int",)); tot = st0.elems(series_ref(st0, m, "_executed_total_prices"), ("real",))
+    den = SUM_INT(vol, tt + 1)
+    return [("VWAP = turnover up to the time / executed volume up to the time (NaN when nothing was executed)", z3.Implies(den != 0, res.term == SUM_REAL(tot, tt + 1) / z3.ToReal(den)))]
+
+
+GET_VWAP = FSpec("Market.get_vwap", pre=vwap_pre, post=vwap_post, props=("C08", "C06"),
+                 raises={"AssertionError": lambda st, a: z3.And(z3.Not(a["time"].none), a["time"].term > st.read(a["self"], "time").term)})
+
+
+@task("Market.get_vwap", props=["C08", "C06"], functions=["Market.get_vwap"], replay="market_ops")
+def t_vwap():
+    obl, info = GET_VWAP.verify()
+    return {"obligations": obl, "info": [info]}
